@@ -32,6 +32,7 @@ pub trait Config: 'static {
     fn backend() -> (bool, i64, &'static str);
     const CLONEABLE: bool = false;
     const RESIZABLE: bool = false;
+    const RAWPARTS: bool = false;
     fn clone_vec(_v: &AnyVec<Self::Tr, Self::M>) -> Option<AnyVec<Self::Tr, Self::M>> { None }
     /// reserve / reserve_exact / shrink_to_fit / shrink_to, erased or through the typed view; false = not offered by this backend
     fn cap_op(_v: &mut AnyVec<Self::Tr, Self::M>, _op: &str, _n: usize, _typed: bool) -> bool { false }
